@@ -23,7 +23,8 @@ func init() {
 		Rule: "histories: seeded random sequences of 10-120 table.insert/remove/concat/maxn/getn/unpack/sort calls and direct assignments on one list, " +
 			"one history in 25 starts with 2559-8000 appended elements (lists longer than half / all of the default value stack; unpack of thousands of values may then fail with the stack limit); one in 12 ends with table.insert(t, pos, nil); " +
 			"each step compared with a Go slice model (results + full read-back rawget 1..n+2 and #t); non-trivial = >=10 steps with >=3 distinct op kinds and >=1 element removed; " +
-			"sorts: element multisets x comparator kinds (strict weak orders and inconsistent/failing ones), non-trivial = >=3 elements and >=2 comparator calls; distinct by content hash",
+			"element kinds: numbers, strings, mixed, strings with a third empty strings, numbers with booleans (false is an element like any other); " +
+			"sorts: element multisets x comparator kinds (strict weak orders and inconsistent/failing ones; after a comparator error the list must still be a permutation), non-trivial = >=3 elements and >=2 comparator calls; distinct by content hash",
 		Assumptions: []string{
 			"the Go slice model of a Lua 5.1 list (manual section 5.5) is correct",
 			"numbers used as elements are integers or x.5 so number->string conversion is unambiguous",
